@@ -164,6 +164,44 @@ def sub_metamorphic(case):
     compare_values(same, np.zeros(len(same)), relation, scale, "RPE of a rigidly moved copy must vanish", law="same_motion")
 
 
+def sub_reuse(case):
+    """history on one metric object: a second evaluation gives what a fresh object gives (one value per selected pair)"""
+    ref, est, c = _setup(case)
+    relation = c["relation"]
+    ref_b = ref.left(rm.se3(gen.rot_matrix(case["M1"]["rot"]), np.asarray(case["M1"]["t"], dtype=float)))
+    est_b = trajgen.Real(est.P[::-1].copy(), est.Rs()[::-1], est.mode)
+
+    def fresh():
+        return metrics.RPE(REL[relation], c["delta"], UNITS[c["unit"]], c["tol"], c["all_pairs"], c["from_ref"])
+
+    def run(m, a, b):
+        try:
+            m.process_data((a.build(), b.build()))
+        except filters.FilterException:
+            return None
+        return np.asarray(m.error, dtype=float).copy(), list(m.delta_ids)
+    shared = fresh()
+    first = run(shared, ref, est)
+    second = run(shared, ref_b, est_b)
+    exp = run(fresh(), ref_b, est_b)
+    if (second is None) != (exp is None):
+        raise Mismatch("a reused RPE object refuses/accepts differently from a fresh one", observed="reuse")
+    if second is not None:
+        if len(second[0]) != len(second[1]) or second[1] != exp[1] or second[0].shape != exp[0].shape or not np.array_equal(second[0], exp[0], equal_nan=True):
+            raise Mismatch("second evaluation on the same RPE object: %d values / %d pair ends, a fresh object gives %d / %d" % (
+                len(second[0]), len(second[1]), len(exp[0]), len(exp[1])), observed="reuse", relation=relation)
+    # the same for APE
+    ma = metrics.APE(REL[relation]) if relation != "point_distance_error_ratio" else None
+    if ma is not None:
+        ma.process_data((ref.build(), est.build()))
+        ma.process_data((ref_b.build(), est_b.build()))
+        mf = metrics.APE(REL[relation])
+        mf.process_data((ref_b.build(), est_b.build()))
+        if not np.array_equal(np.asarray(ma.error), np.asarray(mf.error), equal_nan=True):
+            raise Mismatch("second evaluation on the same APE object differs from a fresh object", observed="reuse", relation=relation)
+    return "reuse"
+
+
 def sub_unequal(case):
     ref, est, c = _setup(case)
     if ref.n < 3:
@@ -234,6 +272,7 @@ SUBS = [
     Sub("definition", sub_definition, st_case, 2500, 80000, nontrivial=lambda c: True),
     Sub("metamorphic", sub_metamorphic, st_meta, 500, 20000, nontrivial=lambda c: True),
     Sub("unequal", sub_unequal, st_uneq, 200, 5000),
+    Sub("reuse", sub_reuse, st_meta, 300, 10000, nontrivial=lambda c: True),
     Sub("bulk", sub_bulk, st_bulk, 12, 300, shards_quick=4),
 ]
 
